@@ -402,6 +402,14 @@ class Interp:
             return self.lift_instance(v)
         return v
 
+    def default_value(self, v, native):
+        """A default argument is evaluated ONCE, when the function is defined: a mutable default (list/dict/set) of a
+        repository function is state that survives between calls.  Like module-level containers it is analysed on a
+        per-path structural copy (writes are seen by later calls on the same path and never reach the real function)."""
+        if native is not None and type(v) in (list, dict, set):
+            return self.module_state(v)
+        return self.lift(v)
+
     def module_state(self, container):
         """Module-level list/dict/set of the repository: every analysed path works on its OWN structural copy, taken at
         first use (state written by the analysed code is seen by later calls on the same path - histories - and never
@@ -913,13 +921,13 @@ class Interp:
         for i, name in enumerate(allpos):
             if name not in loc:
                 if i >= first_default:
-                    loc[name] = self.lift(defaults[i - first_default])
+                    loc[name] = self.default_value(defaults[i - first_default], native)
                 else:
                     self.fail("TypeError", f"{f.qualname}() missing required argument '{name}'", node)
         for name in kwonly:
             if name not in loc:
                 if name in kw_defaults:
-                    loc[name] = self.lift(kw_defaults[name])
+                    loc[name] = self.default_value(kw_defaults[name], native)
                 else:
                     self.fail("TypeError", f"{f.qualname}() missing keyword-only argument '{name}'", node)
         return loc
